@@ -1,6 +1,7 @@
 import CMacVerif.Lemmas.Worker
 import CMacVerif.Lemmas.WorkerOrder
 import CMacVerif.Lemmas.HydroGraph
+import CMacVerif.Lemmas.LockOrder
 import Mathlib.Tactic.SplitIfs
 /-!
 # C07 — hydro task graph: every task once, in order, conflict-free, always finishes
@@ -422,6 +423,61 @@ theorem lockset_nodup (L : Layout) (t : Task) : (lockset L t).Nodup := by
     cases h : ngbUp L ax g <;> simp only <;> (try split_ifs with e) <;> simp
     exact fun e' => e e'.symm
   all_goals simp
+
+/-! ### lock order ("avoid dining philosophers by sorting the dependencies on subgrid index")
+
+A pop takes the locks of a task one after the other with `try_lock` and gives the first one back
+when the second is taken.  Mutual exclusion does not depend on the order, but progress under an
+adversarial lock-step schedule does. -/
+
+/-- for every layout and every existing task: the locks are taken in strictly increasing subgrid
+index, and they are the locks of `lockset` -/
+theorem hydro_lock_order (L : Layout) (t : Task) (ht : exists_ L t = true) :
+    (lockOrder L t).Pairwise (fun a b => subIndex L a < subIndex L b) ∧
+      (∀ x, x ∈ lockOrder L t ↔ x ∈ lockset L t) ∧ (lockOrder L t).length = (lockset L t).length := by
+  have hv : valid L t.g = true := by
+    unfold exists_ at ht
+    simp only [Bool.and_eq_true] at ht
+    exact ht.1
+  exact ⟨lockOrder_sorted L t hv (lockset_nodup L t), lockOrder_mem L t, lockOrder_length L t⟩
+
+/-- **no lock-step livelock**: let `waiting` be the two-lock tasks that currently hold their first
+lock `p.1` and are about to try their second `p.2`.  If every one of them takes its lower-indexed
+lock first, at least one of them finds its second lock not held by any waiting task — so a round
+in which ALL of them fail, give their lock back and start over is impossible. -/
+theorem no_lockstep_cycle (waiting : List (Nat × Nat)) (hne : waiting ≠ [])
+    (hord : ∀ p ∈ waiting, p.1 < p.2) : ∃ p ∈ waiting, ∀ q ∈ waiting, q.1 ≠ p.2 := by
+  have hmax : ∀ l : List (Nat × Nat), l ≠ [] → ∃ p ∈ l, ∀ q ∈ l, q.2 ≤ p.2 := by
+    intro l
+    induction l with
+    | nil => intro h; exact absurd rfl h
+    | cons a l ih =>
+      intro _
+      by_cases hl : l = []
+      · subst hl
+        exact ⟨a, List.mem_cons_self, fun q hq => by
+          simp only [List.mem_singleton] at hq; subst hq; exact Nat.le_refl _⟩
+      · obtain ⟨p, hp, hle⟩ := ih hl
+        by_cases hc : p.2 ≤ a.2
+        · refine ⟨a, List.mem_cons_self, fun q hq => ?_⟩
+          rcases List.mem_cons.mp hq with rfl | hq
+          · exact Nat.le_refl _
+          · exact Nat.le_trans (hle q hq) hc
+        · refine ⟨p, List.mem_cons_of_mem _ hp, fun q hq => ?_⟩
+          rcases List.mem_cons.mp hq with rfl | hq
+          · omega
+          · exact hle q hq
+  obtain ⟨p, hp, hle⟩ := hmax waiting hne
+  refine ⟨p, hp, fun q hq e => ?_⟩
+  have h1 := hord q hq
+  have h2 := hle q hq
+  omega
+
+/-- … and the order is needed: two tasks that take the same two locks in opposite order can both
+hold their first lock and find their second one taken, forever -/
+theorem unordered_locks_can_cycle :
+    ¬ ∃ p ∈ [((1 : Nat), (2 : Nat)), (2, 1)], ∀ q ∈ [((1 : Nat), (2 : Nat)), (2, 1)], q.1 ≠ p.2 := by
+  decide
 
 /-! ## Part 3 — the property for the hydro step of every layout -/
 
